@@ -92,7 +92,7 @@ Inductive path :=
 | PStatic          (* static T x = e;     declaration checks a clamped copy, StaticVariableManager::create_static_variable stores evaluate(init) raw *)
 | PIncDecVar       (* x++ ++x x-- --x     incdec.cpp evaluate_incdec: var->value += 1, no check *)
 | PIncDecElem1     (* a[i]++ ...          incdec.cpp: array_values[i] += 1, no check; read narrows *)
-| PReturn          (* return e;           handlers/control/return.cpp: the declared result type is never consulted *)
+| PReturn          (* return e;           call_impl.cpp:6786 clamps a negative result of an unsigned function; the declared result type is never consulted for a range check *)
 | PElem1           (* a[i] = e;           CommonOperations::assign_array_element_safe: clamp, check; read narrows *)
 | PElem1Compound   (* a[i] op= e;         same store as PElem1 (old value read through the narrowing read) *)
 | PElemN           (* m[i][j] = e;        ArrayManager::setMultidimensionalArrayElement: clamp only *)
@@ -106,7 +106,8 @@ Definition mech_store (p : path) (t : ty) (v : Z) : ctl Z :=
   match p with
   | PDecl | PAssign | PCompound | PArg | PGlobalScalar => clamp_check t v
   | PStatic => match clamp_check t v with Val _ => Val v | other => other end
-  | PIncDecVar | PReturn => Val v
+  | PIncDecVar => Val v
+  | PReturn => Val (mech_clamp (uns t) v)
   | PIncDecElem1 => Val (narrow_read t v)
   | PElem1 | PElem1Compound => match clamp_check t v with Val w => Val (narrow_read t w) | other => other end
   | PElemN | PLitN => Val (mech_clamp (uns t) v)
